@@ -19,3 +19,4 @@ OBS += [
  Ob(['C02'], 'ser_scalar', 'doc', 'harness/doc_ser.c', 'h_ser_scalar', unwind=8, desc='serializeJson(integer scalar, buf, cap): prefix / count / NUL for every capacity', bound='values -128..127, capacity 0..length+2', **dict(K3, hunwind=34)),
  #Ob(['C02'], 'ser_raw_nonfinite', 'doc', 'harness/doc_ser.c', 'h_ser_raw_nonfinite', unwind=10, desc='raw values verbatim; NaN / +-Infinity serialize as null (default configuration)', bound='raw value of 0..3 symbolic bytes, all capacities', **dict(K3, hunwind=24)),
 ]
+OBS.append(Ob(['C08', 'C02'], 'mser_arr', 'doc', 'harness/doc_ser.c', 'h_mser_arr', unwind=10, desc='serializeMsgPack([i,"s0s1",b,nil], buf, cap) and measureMsgPack: conforming bytes in element order, count = min(cap,len), prefix only, guard bytes', bound='i in -128..127, both string bytes, b, capacity 0..length+2', **dict(K3, hunwind=26)))
